@@ -713,6 +713,12 @@ def c19(run):
         g = rock.Gen(rng, names=names, funcs=names[:rng.randint(1, 2)], max_depth=rng.randint(1, 3))
         g.fresh_name = lambda: rng.choice(names + [sv('pp')])
         prog = g.program(depth=rng.randint(0, 2))
+        if rng.random() < 0.12:
+            # a LARGE report with many ties: both passes report on the same lines, interleaved over many lines
+            X = names[0]
+            big = [rng.choice([say(v(X)), put(num(rng.randint(0, 9)), X), put(st('s'), X), say(num(1)), ('inc', X, 1)])
+                   for _ in range(rng.randint(18, 70))]
+            prog = [big] + prog
         # parameter lists must not repeat a name… they may: parsing accepts it
         src = rock.Speller(rng, noise=0.02, comments=0.03).program(prog)
         cases.append((prog, src))
@@ -760,7 +766,7 @@ def c20(run):
     rng = run.rng
     n = run.n(60, 1500)
     run.rule = ('the rrss binary built from the working tree: programs succeeding, failing at parse time, failing at run time after '
-                'output x stdin contents, for exec/lint/parse; stdout/stderr/exit compared with the in-process library run (harness) '
+                'output x stdin contents (text; bytes that are not UTF-8 at any line; unwritable stdout), for exec/lint/parse; stdout/stderr/exit compared with the in-process library run (harness) '
                 'and with the model; usage matrix (no args, unknown subcommand, missing/extra operand, missing file, directory); '
                 'non-trivial = the program prints and/or fails; distinct by (subcommand, program, stdin)')
     rc, out, err = common.sh('cargo build --offline', cwd=common.REPO, timeout=1800)
@@ -860,6 +866,46 @@ def c20(run):
             elif not so.startswith(b'Program {'):
                 run.fail({'program': src, 'cli_stdout': so[:100].decode('utf-8', 'replace'), 'cli_stderr': se[:200].decode('utf-8', 'replace')},
                          '`rrss parse` does not print the syntax tree of a program the library accepts')
+        # I/O errors of the run itself: standard input that is not valid UTF-8 (at any line), standard output that cannot be
+        # written (/dev/full): the library reports them as runtime errors, so must the tool (library vs binary, model-free:
+        # the model's protocol carries text only)
+        iocases = []
+        for k in range(run.n(25, 400)):
+            src = progs.render(rng, io_program(rng))
+            lines = [rng.choice([b'one', b'', b'\xc3\xa9t\xc3\xa9', b'12']) for _ in range(rng.randint(1, 5))]
+            lines[rng.randrange(len(lines))] = rng.choice([b'ab\xff', b'\xc3', b'\xed\xa0\x80', b'ok\xc3\x28', b'\xf8\x88\x80\x80\x80'])
+            iocases.append((src, b'\n'.join(lines) + rng.choice([b'\n', b''])))
+        ioreqs = ['run %s x%s - - 20000' % (hx(src), sb.hex()) for src, sb in iocases]
+        iolib = common.impl(ioreqs)
+        for k, ((src, sb), r) in enumerate(zip(iocases, iolib)):
+            c, det, out, _ = run_parts(r)
+            if c in ('crash', 'hang'):
+                run.fail({'program': src, 'stdin_hex': sb.hex(), 'library': r[:200]}, 'the library panics on standard input that is not valid UTF-8')
+                continue
+            path = os.path.join(td, 'io%d.rock' % k)
+            with open(path, 'w') as f:
+                f.write(src)
+            run.case(('exec-io', src, sb), True, sub='exec-invalid-utf8-stdin', outcome=c)
+            code, so, se = cli(['exec', path], sb)
+            case = {'program': src, 'stdin_hex': sb.hex(), 'library': r[:300], 'cli_stdout': so.decode('utf-8', 'replace')[:300],
+                    'cli_stderr': se.decode('utf-8', 'replace')[:300], 'exit': code}
+            if so != out:
+                run.fail(case, '`rrss exec` writes something else to standard output than the library interpreter (invalid UTF-8 on standard input)')
+            if c == 'rterr':
+                msg = unhx(r.split(' ')[2]).decode('utf-8', 'replace')
+                if se.decode('utf-8', 'replace') != 'Runtime error: ' + msg + '\n':
+                    run.fail(case, 'a runtime error (unreadable standard input) is not reported on standard error, prefixed as such')
+            elif c == 'ok' and se != b'':
+                run.fail(case, '`rrss exec` of a succeeding program reports an error')
+            # the same program with a standard output that cannot be written
+            lib_w = common.impl(['run %s x%s 0 - 20000' % (hx(src), b'one\ntwo\n'.hex())])[0]
+            if lib_w.startswith('rterr IOError'):
+                run.case(('exec-full', src), True, sub='exec-stdout-full')
+                with open('/dev/full', 'wb') as full:
+                    pf = subprocess.run([binp, 'exec', path], input=b'one\ntwo\n', stdout=full, stderr=subprocess.PIPE, env=env, timeout=60)
+                if not pf.stderr.startswith(b'Runtime error: '):
+                    run.fail({'program': src, 'stdout': '/dev/full', 'library (failing writer)': lib_w[:200], 'cli_stderr': pf.stderr.decode('utf-8', 'replace')[:300]},
+                             'a runtime error (unwritable standard output) is not reported on standard error, prefixed as such')
         # usage matrix
         good = os.path.join(td, 'good.rock')
         open(good, 'w').write('say 1\n')
